@@ -229,6 +229,22 @@ def phot_stream(rep, r, n, lines, exps, metas):
             rep.violation('truth-not-recovered' + (':grouped' if grouped else ':single'),
                           f'row {bad[0]}: rendered {bad[1]} but fitted {bad[2]}', replay)
             continue
+        # (S) npixfit of every row = unmasked pixels of the fit window around THAT row's initial position, clipped to the image
+        from astropy.nddata import overlap_slices
+        nbad_ = None
+        for j in range(nsrc):
+            try:
+                slc, _ = overlap_slices(img.shape, fit_shape, (float(init['y'][j]), float(init['x'][j])), mode='trim')
+                exp_n = int(np.count_nonzero(~mask[slc])) if mask is not None else int((slc[0].stop - slc[0].start) * (slc[1].stop - slc[1].start))
+            except Exception:                                   # noqa: BLE001  (no overlap: left to the model correspondence)
+                continue
+            if int(res['npixfit'][j]) != exp_n:
+                nbad_ = (j, int(res['npixfit'][j]), exp_n)
+                break
+        if nbad_:
+            rep.violation('npixfit-ne-window', f'row {nbad_[0]}: npixfit = {nbad_[1]} but its fit window holds {nbad_[2]} unmasked pixels '
+                          f'(npixfit column {[int(v) for v in res["npixfit"]]}, group ids {[int(v) for v in res["group_id"]]})', replay)
+            continue
         # (S) documented flag bits 1, 2, 4 evaluated directly: npixfit below the fit window size, fit position outside the image, flux <= 0
         fbad = None
         for j in range(nsrc):
